@@ -62,8 +62,8 @@ fn rest() -> impl Strategy<Value = Hex> {
 }
 
 pub fn case_strategy() -> impl Strategy<Value = Case> {
-    scenario_quiet(Fam::Any).prop_flat_map(|scn| {
-        let v4 = scn.net.is_v4();
+    // built once per family (building strategies is not free) and cloned per case
+    let build = |v4: bool| -> BoxedStrategy<Msg> {
         let icmp = (icmp_type(v4), prop_oneof![5 => Just(0u8), 1 => Just(1u8), 1 => Just(255u8), 1 => any::<u8>()], rest(), prop_oneof![4 => Just(0u8), 1 => 1u8..20]).prop_map(|(typ, code, rest, pad)| Msg::Icmp { typ, code, rest, pad });
         let l2: BoxedStrategy<Msg> = if v4 {
             prop_oneof![
@@ -74,7 +74,14 @@ pub fn case_strategy() -> impl Strategy<Value = Case> {
         } else {
             (prop_oneof![6 => Just(0u8), 1 => any::<u8>()], any::<[u8; 4]>(), prop::option::weighted(0.3, any::<[u8; 16]>()), ndp_opts_wf(), any::<bool>()).prop_map(|(code, reserved, other_target, opts, unicast)| Msg::Ns { code, reserved, other_target, opts, unicast }).boxed()
         };
-        (Just(scn), prop_oneof![1 => l2, 1 => icmp], crate::vf::answerable::ip4_options(), prop::option::weighted(0.25, crate::vf::props::c03::ip_tweak())).prop_map(|(scn, msg, ip4_opts, ip_tweak)| Case { scn, msg, ip4_opts, ip_tweak })
+        prop_oneof![1 => l2, 1 => icmp].boxed()
+    };
+    let (m4, m6) = (build(true), build(false));
+    let opts = crate::vf::answerable::ip4_options().boxed();
+    let tw = prop::option::weighted(0.25, crate::vf::props::c03::ip_tweak()).boxed();
+    scenario_quiet(Fam::Any).prop_flat_map(move |scn| {
+        let m = if scn.net.is_v4() { m4.clone() } else { m6.clone() };
+        (Just(scn), m, opts.clone(), tw.clone()).prop_map(|(scn, msg, ip4_opts, ip_tweak)| Case { scn, msg, ip4_opts, ip_tweak })
     })
 }
 
@@ -310,7 +317,7 @@ impl Prop for C05 {
         "cases = in-scope scenario x one of: ARP message with well-formed Ethernet/IPv4 header, operation over all u16 (dense at 0..4, 8..10), target handled / not handled / no self-IP list, 0..18 padding bytes; ARP with arbitrary htype/ptype/hlen/plen (only: no crash, operations != 1 get nothing); ICMPv4 / ICMPv6 with arbitrary type, code, identifier, sequence, data 0..1472 and Ethernet padding; neighbour solicitation with code 0 / non-zero, target handled / not handled, 0..2 well-formed NDP options, unicast / solicited-node destination. Plus the type x code grid (quick: 256 types x codes {0,1,2,127,255} per IP version; thorough: all 65536 pairs per IP version, exhaustive). Oracle: reference answer rule of the statement with field-by-field comparison by an independent decoder. Non-trivial = a reply is demanded, or the message is a near miss (operation/type/code one step from an answered one); distinct by frame hash."
     }
     fn run(&self, ctx: &mut RunCtx) {
-        let n = ctx.share(ctx.tier.n(3_000_000, 40_000_000));
+        let n = ctx.share(ctx.tier.n(6_000_000, 60_000_000));
         ctx.run_generated("msg", n, case_strategy(), check);
         let codes: Vec<u8> = if ctx.tier == Tier::Thorough { (0..=255u8).collect() } else { vec![0, 1, 2, 127, 255] };
         // body lengths (bytes after the ICMP header): 0 = the default body; fixed-format ICMP
